@@ -126,9 +126,17 @@ pub struct Obs {
     pub violations: Vec<Violation>,
     pub inconclusive: Vec<String>,
     pub note: Option<Value>,
+    /// the case left threads behind that cannot be cleaned up (a deadlock was observed): the
+    /// worker process ends after logging this case and the supervisor starts a fresh one
+    pub poisoned: bool,
 }
 
+pub const EXIT_RESTART: i32 = 17;
+
 impl Obs {
+    pub fn poison(&mut self) {
+        self.poisoned = true;
+    }
     pub fn nontrivial(&mut self) {
         self.nontrivial = true;
     }
@@ -461,6 +469,14 @@ pub fn run_worker<P: Prop>(a: WorkArgs) -> anyhow::Result<()> {
         if hbuf.len() >= (1 << 16) - 16 {
             hashes.write_all(&hbuf)?;
             hbuf.clear();
+        }
+        if obs.poisoned {
+            hashes.write_all(&hbuf)?;
+            sum.wall_s = t0.elapsed().as_secs_f64();
+            let line = json!({"t": "summary", "summary": sum});
+            writeln!(log, "{line}")?;
+            log.flush()?;
+            std::process::exit(EXIT_RESTART);
         }
         idx += a.nshards as u64;
     }
